@@ -17,10 +17,17 @@ sed -i "s#\"/repo/#\"$WT/#g" "$H/Cargo.toml"
 OUT=$WT/.fv-result.json
 if [ -x "$WT/.fv-target/release/$LOW" ]; then
   "$WT/.fv-target/release/$LOW" --tier quick --seed "${VERIF_SEED:-1}" --driver /verif/lean/.lake/build/bin/drv_$LOW --out "$OUT" || echo "harness rc=$?"
-  python3 - "$OUT" <<'PY'
-import json,sys,collections
-r=json.load(open(sys.argv[1]))
-print("cases",r["correspondence_cases"],"disagreements",r["disagreement_count"],"oracle_failures",len(r["oracle_failures"]))
+  python3 - "$OUT" "$PROP" <<'PY'
+import json,sys,collections,re,glob
+r=json.load(open(sys.argv[1])); prop=sys.argv[2]
+known=[]
+for f in ["/verif/known_findings.json"]+sorted(glob.glob("/verif/known_findings.d/*.json")):
+    try: known+=[k for k in json.load(open(f)).get("findings",[]) if k.get("property")==prop]
+    except Exception: pass
+def is_known(f):
+    return any(re.search(k["match"].get("oracle",".*"),f["oracle"]) and re.search(k["match"].get("input",".*"),f["input"]) for k in known)
+allf=r["oracle_failures"]; r["oracle_failures"]=[f for f in allf if not is_known(f)]
+print("cases",r["correspondence_cases"],"disagreements",r["disagreement_count"],"oracle_failures (not known findings)",len(r["oracle_failures"]),"known-finding hits",len(allf)-len(r["oracle_failures"]))
 print("groups:",collections.Counter(d["group"] for d in r["disagreements"]).most_common(6))
 print("oracles:",collections.Counter(f["oracle"] for f in r["oracle_failures"]).most_common(6))
 for d in r["disagreements"][:2]: print(" dis:",d)
